@@ -997,7 +997,8 @@ class BufferCheck(Check):
         base = ('cases = seeded timed programs of <= 8 actions on the grid around `timeout` '
                 '(call / await_ / map(list) / map(iterator) / amap with producer delays and failures, wait(cancel=True|False)), '
                 'scripted failures of the first six function invocations (HarnessError / own CancelledError / TimeoutError), '
-                'function durations {0, T/4, 2T}, arguments that are exception instances; ')
+                'function durations {0, T/4, 2T}, arguments that are exception instances, collections given as list / tuple / a '
+                'walk-once iterable, follow-up work started by the function itself that submits and waits; ')
         return base + {
             'C03': 'plus 0-2 foreign submitting threads under random/pct/stall schedules (asyncio debug mode in half of them); '
                    'non-trivial = >= 2 submissions and a retry after a failed call, a submission landing while the function runs, '
